@@ -714,5 +714,31 @@ package gnet
 //@   requires el.engine.opts.Logger != nil
 //@   modifies-all-except eventloop, engine, Options, netpoll.Poller, listener, map[int]*listener, ghost:kdata
 //@   modifies el.connections.connCount, *gfd.monoSeq
-//@   assert after newStreamConn #1: result.fd == nfd && owner[nfd] != nil && result.remote == sa && socket.tcpof(result.remoteAddr, sa) && result.localAddr == el.listeners[fd].addr && result.loop == el
+//@   assert after newStreamConn #1: result.fd == accfd && owner[accfd] != nil && ref(result.remote) == accsa && socket.tcpof(result.remoteAddr, result.remote) && result.localAddr == el.listeners[fd].addr && result.loop == el
 //@   ensures elwf(el)
+
+// accept0: the acceptor loop of the multi-loop mode. Every accepted socket becomes a connection bound to the loop the load
+// balancer chose (C15: that is the loop whose poller gets the registration request, in the high-priority class), with the
+// peer's and the listener's addresses; if the request cannot be queued the descriptor is closed once and the connection
+// released; retryable errnos are skipped, any other accept failure stops the acceptor with ErrAcceptSocket.
+// lbnext (bookkeeping): the loop returned by the most recent call of the load balancer.
+//@ ghost log lbnext Ref
+//@ pure asel(r Ref) *eventloop := r
+//@ iface loadBalancer.next(addr net.Addr) (el *eventloop)
+//@   modifies lbnext
+//@   ghostdef lbnext := el
+//@   ensures el != nil && el.engine != nil && el.engine.opts != nil && el.engine.opts.WriteBufferCap > 0 && el.engine.opts.Logger != nil && el.poller != nil
+//@ func (el *eventloop) accept0(fd int, ev netpoll.IOEvent, flags netpoll.IOFlags) (err error)
+//@   requires el != nil && el.engine != nil && el.engine.opts != nil && el.engine.opts.Logger != nil && el.engine.eventLoops != nil
+//@   requires owner[fd] != nil && has(el.listeners, fd) && el.listeners[fd] != nil
+//@   requires (typeis(el.listeners[fd].addr, "*net.TCPAddr") || typeis(el.listeners[fd].addr, "*net.UDPAddr")) ==> ref(el.listeners[fd].addr) != nil
+//@   requires forall l *eventloop :: l != nil ==> l.listeners == el.listeners
+//@   modifies-all-except eventloop, engine, Options, netpoll.Poller, listener, map[int]*listener, ghost:kdata, ghost:nopen, ghost:nclose
+//@   assert after newStreamConn #1: result.fd == accfd && owner[accfd] != nil && ref(result.remote) == accsa && socket.tcpof(result.remoteAddr, result.remote) && result.localAddr == el.listeners[fd].addr && result.loop == lbnext
+//@   assert after (*Poller).Trigger #1: trigprio == 0 && trigpoller == asel(lbnext).poller
+//@   assert after (*conn).release #1: owner[accfd] == nil
+//@   loop 1:
+//@     invariant el == el$0 && fd == fd$0 && el.engine != nil && el.engine.opts != nil && el.engine.opts.Logger != nil && el.engine.eventLoops != nil &&
+//@          owner[fd] != nil && has(el.listeners, fd) && el.listeners[fd] != nil &&
+//@          ((typeis(el.listeners[fd].addr, "*net.TCPAddr") || typeis(el.listeners[fd].addr, "*net.UDPAddr")) ==> ref(el.listeners[fd].addr) != nil) &&
+//@          (forall l *eventloop :: l != nil ==> l.listeners == el.listeners)
